@@ -153,7 +153,7 @@ func (g *Gen) Make(kind string, kids, hidden []*Node) *Node {
 		}
 	case "grpc":
 		n.N = []int{r.Intn(17)} // including codes.OK
-	case "gstatus", "gstatuswrap", "grpcerr", "gogoerr":
+	case "gstatus", "gstatusf", "gstatuswrap", "grpcerr", "gogoerr":
 		n.N = []int{1 + r.Intn(16)}
 	}
 	return n
